@@ -453,26 +453,26 @@ ENGINE_RULE = ("(pattern AST from the generator, flags, haystack sampled from th
                "non-trivial = the search finds a match; distinct by (pattern, flags, haystack, start)")
 
 PLANS = {
-    "C07": dict(proofs=["Proofs.C07", "Proofs.C07pre"], custom="c07",
+    "C07": dict(proofs=["Proofs.C07", "Proofs.C07pre", "Proofs.SourceConsts"], custom="c07",
                 runs=[("syntax", dict(quick=20000, thorough=600000), ["--focus", "C07"]), ("compiler", dict(quick=10000, thorough=300000))],
                 rule="all strings up to length 3 (thorough 4) over 25 syntax symbols x {-,u,v}; generated valid patterns, single-token mutations, random syntax-alphabet strings incl. surrogate code points; 30 adversarially large patterns (10^5..10^6 alternatives / nesting 255,256,257,10^5 / 65535,65536 groups and loops / 30-digit counts / 10^6-char literals / ...) each in a worker process; non-trivial = compiles",
                 technique="Lean 4 proofs about the parser / optimizer / emitter models with every Rust panic site explicit (case classes <= 4, pre-scan totality, …) + exact correspondence of the parser model (accept/reject and IR) + adversarial stream in worker processes"),
-    "C08": dict(proofs=["Proofs.C08", "Proofs.C08Frag", "Proofs.Lemmas.ESGrammarLaws", "Proofs.Lemmas.ParseRegressions", "Proofs.C07"], custom="c07",
+    "C08": dict(proofs=["Proofs.C08", "Proofs.C08Frag", "Proofs.Lemmas.ESGrammarLaws", "Proofs.Lemmas.ParseRegressions", "Proofs.C07", "Proofs.PropExpr"], custom="c07",
                 runs=[("syntax", dict(quick=150000, thorough=3000000), ["--focus", "C08"])],
                 rule="all strings up to length 3 (thorough 4) over 25 syntax symbols x {-,u,v}; generated valid patterns of every flag set (character spellings varied: raw, \\xHH, \\uHHHH, \\u{..}, surrogate pairs, \\cX, control escapes, identity escapes), single-token mutations of them, random strings over the syntax alphabet incl. surrogate code points; every case asked both of Regex::with_flags and of the ES2025 grammar recognizer; non-trivial = compiles",
                 technique="Lean 4 recognizer of the ES2025 Pattern grammar incl. Annex B and early errors (written from ECMA-262 alone, validated against V8 on 10^8 strings) with a proof that it never runs out of fuel + exact correspondence of the parser model (accept/reject and IR) + parser totality theorems (C07) + differential implementation vs recognizer on every generated string"),
     "C15": dict(proofs=["Proofs.C15", "Proofs.ByteSearch"], runs=[], custom="c15",
                 rule="one generated case file ((flags, pattern incl. single-token mutations of valid patterns, haystack, start)) replayed through find_from (optimized and no_opt, backtracking and PikeVM) by binaries built with default / index-positions / prohibit-unsafe / both / utf16 / alloc-only features; non-trivial = the default build finds a match",
                 technique="Lean 4 proof (any two build variants that refine the executor model agree wherever no error site is reachable - by the C06 safety theorem) + replay of one case file through six feature builds"),
-    "C20": dict(proofs=["Proofs.C20", "Proofs.Closure", "Proofs.Final", "Proofs.SearchTerm"], fset="pattern", toolchain="+nightly",
+    "C20": dict(proofs=["Proofs.C20", "Proofs.Closure", "Proofs.Final", "Proofs.SearchTerm", "Proofs.C20Provided"], fset="pattern", toolchain="+nightly",
                 runs=[("c20", dict(quick=6000, thorough=200000))],
                 rule="(regex from pool/generator, haystack incl. multi-byte text, interleaving of next()/next_back() calls: all-forward, all-backward, 3 random); non-trivial = regex has a match; plus str::find/rfind/contains/matches/rmatches/split/rsplit compared with find_iter",
                 technique="Lean 4 proof of the Searcher/ReverseSearcher contract for the model of RegexSearcher (any interleaving tiles the haystack; Match steps = find_iter) + correspondence on nightly"),
-    "C06": dict(proofs=["Proofs.C06", "Proofs.Certs", "Proofs.Final", "Proofs.ByteSearch"], runs=[("engine", dict(quick=30000, thorough=1500000), ["--focus", "C06"]),
+    "C06": dict(proofs=["Proofs.C06", "Proofs.Certs", "Proofs.Final", "Proofs.ByteSearch", "Proofs.SourceConsts"], runs=[("engine", dict(quick=30000, thorough=1500000), ["--focus", "C06"]),
                                              ("engine", dict(quick=30000, thorough=1500000), ["--focus", "C06"], {"profile": "checked"})],
                 rule=ENGINE_RULE,
                 technique="Lean 4 proof of a safety invariant of the executor models (no error site reachable, positions in range) + executor tie + range/boundary checks on the implementation"),
-    "C14": dict(proofs=["Proofs.C14", "Proofs.C14Sem"], fset="utf16",
+    "C14": dict(proofs=["Proofs.C14", "Proofs.C14Sem", "Proofs.SourceConsts"], fset="utf16",
                 runs=[("c14", dict(quick=20000, thorough=600000))],
                 rule="(pattern AST, flags, haystack, start): find_from_utf16 on the UTF-16 encoding with offsets translated back vs find_from on the string; find_from_ucs2 on BMP text; arbitrary u16 slices with lone surrogates from every start; non-trivial = match",
                 technique="Lean 4 proof about the UTF-16/UCS-2 decoder models (round trip, totality and range on arbitrary units, offset translation) + correspondence with the utf16 build"),
@@ -488,7 +488,7 @@ PLANS = {
                 technique="Lean 4 proof (prefilter transparency for any admissible scan; byte-scan and lead-byte lemmas) + executor tie + predicate-vs-Arbitrary differential"),
     "C02": dict(proofs=["Proofs.C02", "Proofs.C02Full", "Proofs.Keystone", "Proofs.Lemmas.KeystoneC02", "Proofs.Certs", "Proofs.Final"], runs=[("engine", dict(quick=30000, thorough=1500000), ["--focus", "C02"])],
                 rule=ENGINE_RULE, technique="Lean 4 proofs about the executor models + executor tie (models run on the dumped bytecode, incl. step counts) + implementation differential"),
-    "C03": dict(proofs=["Proofs.C03", "Proofs.Keystone", "Proofs.EndToEnd", "Proofs.Final"], runs=[("engine", dict(quick=30000, thorough=1500000), ["--focus", "C03"]),
+    "C03": dict(proofs=["Proofs.C03", "Proofs.Keystone", "Proofs.EndToEnd", "Proofs.Final", "Proofs.SourceConsts"], runs=[("engine", dict(quick=30000, thorough=1500000), ["--focus", "C03"]),
                                  ("compiler", dict(quick=30000, thorough=900000))],
                 rule=ENGINE_RULE + "; compiler tie: per generated pattern the real IR before/after optimization, start predicate and program vs the Lean models, and the IR semantics vs the real first match",
                 technique="Lean 4 proof: every optimizer pass and the whole pipeline preserve the IR semantics (all inputs) + exact correspondence of the optimizer / IR-semantics models with the code + opt-vs-no_opt differential"),
@@ -503,7 +503,7 @@ PLANS = {
     "C09": dict(proofs=["Proofs.C09", "Proofs.Closure", "Proofs.Closure2", "Proofs.Final", "Proofs.SearchTerm"], runs=[("c09", dict(quick=20000, thorough=400000))],
                 rule="(pattern from pool/generator, haystack, start, executor); non-trivial = at least one match",
                 technique="Lean 4 proof over the iterator model (parametric in the matcher) + correspondence on attempt tables"),
-    "C11": dict(proofs=["Proofs.C11"], runs=[("c11", dict(quick=0, thorough=0))],
+    "C11": dict(proofs=["Proofs.C11", "Proofs.PropExpr"], runs=[("c11", dict(quick=0, thorough=0))],
                 rule="every (kind, name) of the candidate universe (names of either side, all 2-letter names, mutations); non-trivial = accepted by ICU",
                 technique="Lean 4 kernel evaluation (decide +kernel) over tables regenerated from the source vs ICU 78.2 snapshot"),
     "C12": dict(proofs=["Proofs.C12", "Proofs.Lower"], custom="c07", runs=[("c12sets", dict(quick=20000, thorough=400000)), ("c12classes", dict(quick=60000, thorough=1500000))],
